@@ -97,6 +97,8 @@ type c03Cfg struct {
 	threads [][]c03Event
 	zone    *time.Location // the process's local zone (default UTC)
 	maxAge  string         // retention of the rolling appender in hours (default 24)
+	rootless bool          // the configuration has NO root logger (its logger serves a tag nobody uses) and is destroyed before the events: they go through the built-in console logger after a lifecycle
+	preExist bool          // rolling sinks: the file of the current interval exists already and holds a line an earlier life of the process was acknowledged for
 	level   string         // rolling-logger sinks: the logger's level; fanout: the level of both appender references ("" = not set)
 }
 
@@ -176,6 +178,15 @@ func (c c03Cfg) config() map[string]string {
 			m["logger.root.appenderRef[0].level"] = c.level
 			m["logger.root.appenderRef[1].level"] = c.level
 		}
+	}
+	if c.rootless {
+		for k, v := range m {
+			if rest, ok := strings.CutPrefix(k, "logger.root."); ok {
+				delete(m, k)
+				m["logger.biz."+rest] = v
+			}
+		}
+		m["logger.biz.tags"] = "_zz_nobody_*"
 	}
 	return m
 }
@@ -352,6 +363,20 @@ func c03Scenario(c c03Cfg, b zzvrt.Bounds) *zzvrt.Scenario {
 				if d := multisetDiff(obs.console, wantLines); d != "" {
 					v = append(v, zzvrt.Violation{Clause: "console-lines", Key: key, Detail: d})
 				}
+				// the STREAM (the writes in the order the sink completed them): an appender that hands a long line over in
+				// several pieces has to keep the pieces together
+				streamLines := func(ws []string) []string {
+					var out []string
+					for _, l := range strings.SplitAfter(strings.Join(ws, ""), "\n") {
+						if l != "" {
+							out = append(out, l)
+						}
+					}
+					return out
+				}
+				if d := multisetDiff(streamLines(obs.console), streamLines(wantLines)); d != "" {
+					v = append(v, zzvrt.Violation{Clause: "console-stream", Key: key, Detail: trunc300(d)})
+				}
 				fmt.Fprintf(&sb, "%q", obs.console)
 			}
 			if c.sink != "console" && c.sink != "builtin" {
@@ -404,13 +429,18 @@ func init() {
 		"2x2":     {{ev(0, 0, false), ev(2, 0, false)}, {ev(1, 1, false), ev(3, 1, false)}},
 		"2x1long": {{ev(0, 0, true)}, {ev(1, 1, false)}},
 		"3x1":     {{ev(0, 0, false)}, {ev(1, 1, false)}, {ev(2, 2, true)}},
+		// one line beyond 16 / 32 / 64 KiB (whatever an appender might consider "too long for one write") next to a short one
+		"2x1huge": {{c03Event{tag: 0, payload: "H0-" + strings.Repeat("h", 70000)}}, {ev(1, 1, false)}},
 	}
 	for _, layout := range []string{"TextLayout", "JSONLayout"} {
 		for _, sink := range []string{"console", "file", "rolling", "fanout", "builtin", "two-widths"} {
 			if sink == "builtin" && layout == "JSONLayout" {
 				continue
 			}
-			for _, shape := range []string{"2x1", "2x2", "2x1long", "3x1"} {
+			for _, shape := range []string{"2x1", "2x2", "2x1long", "3x1", "2x1huge"} {
+				if shape == "2x1huge" && sink != "console" && sink != "builtin" && sink != "file" {
+					continue
+				}
 				layout, sink, shape := layout, sink, shape
 				tiers := "qt"
 				if shape == "3x1" || (shape == "2x2" && sink != "console") {
@@ -452,4 +482,11 @@ func init() {
 			return c03Scenario(c03Cfg{layout: layout, sink: "console", threads: threads}, b)
 		})
 	}
+}
+
+func trunc300(s string) string {
+	if len(s) > 300 {
+		return s[:300] + "..."
+	}
+	return s
 }
